@@ -25,12 +25,26 @@ PROP = dict(
               "smooth.step: T{-30,-10} x R{2,5,50} x W{0,10} x fs{8k,192k} x attack,release in {0,1e-3,0.01,0.2,4}^2 (no 4 s at 192 kHz), "
               "4 step phases each, plus attack = release = f/fs for fractional f = fs*t in {1.5,1.92,2.5,3.3,7.7,10.5} (gate.step likewise, hold{0,1e-3}); smooth.silence: T{-30,-10} x R{2,5,50}/limiter x W{0,10} x fs{8k,192k} x attack{0,0.01} x release{1e-3,0.01,0.2} x "
               "k{1,5,50} release times of exact zeros x {1 call, 3 calls}; gate.silence: thr{-40,0} x fs{8k,192k} x attack{1e-3,0.05} x release{0,1e-3} x hold{0,1e-3,0.05} x k{1,5,50} x {1,3 calls}; gate: thr{-140,-40,0} x fs{8k,192k} x attack,release,hold in {0,1e-3,0.05}^3, step history + 7 letters of 10^4; "
+              "stream: LONG STREAMS - 140 000 samples (above the 4096 and 65 536 thresholds) through Compressor(48 kHz, T-20, R4, W6, 5/50 ms), Limiter(48 kHz, T-10, W3, zero attack, 100 ms), "
+              "Limiter(8 kHz, T-30, 2/300 ms), NoiseGate(8 kHz, hold 1000 samples: closes at 65 000 and 130 500 so that the holds span 65 536 and 131 072), Agc real and complex entry points "
+              "(averaging window 1000, level switches at 65 000 and 131 000, one max_gain clamp episode), each fed (a) in one call and (b) in frames of 1000, every sample against the reference "
+              "recursion (static law + one-pole dB smoothing / documented gate recursion / exact sliding-window power + log-domain loop, long double); gate.bursts: thr{-40,0} x fs{8k,192k} x "
+              "attack{0,1e-3,0.01} x release{0.01,0.05} x hold{1e-3,0.01,0.05} x burst length {1 sample, 0.1, 0.5, 0.9 release times}, gaps shorter and longer than the hold, every sample against "
+              "the gate reference recursion; "
               "Agc: target{0.01,1,100} x absolute input amplitude -100..+20 dBFS (1e-5..10) step 10 dB x avg{1,10,100,1000} x max_gain{20,60,140} (140 dB keeps the required "
               "gain below max_gain for every target x amplitude pair) x 3 constant-envelope letters (real +A, real +-A, "
               "complex A e^{j0.7k}), 20000 samples; gain bound: target x avg{1,2,3,7,10,100,1000} x max_gain x {silence, burst, level blocks, modulated bursts + silence}",
-        thorough="as quick with R{1,2,3,5,10,50}, fs{8k,44.1k,192k}, letters of 10^5 samples, smooth.step including 4 s at 192 kHz, "
-                 "Agc amplitudes in 5 dB steps and additionally with (t_rise,t_fall) = (0.1,0.002)"),
-    deadline=dict(quick=150, thorough=1500),
+        thorough="static.curve / static.exact: T{-50,-40,-30,-20,-10,-6,-3,-1,0} x R{1,2,3,4,5,8,10,20,50} x W{0,0.5,1,3,6,10,15,20} x fs{8k,44.1k,192k} x both signs, level grid "
+                 "additionally every 0.001 dB within 0.05 dB of T-W/2, T, T+W/2; gain.range: T{-50,-30,-10,-3,0} x R{1,2,3,5,10,50} x W{0,1,3,10,20} (+ limiter) x fs{8k,44.1k,192k} x "
+                 "attack,release in {0,1e-4,1e-3,0.2,4}^2 x 7 letters of 10^5 samples; smooth.step: T{-40,-30,-20,-10,-3} x R{2,3,5,10,50} x W{0,3,10,20} x fs{8k,44.1k,192k} x "
+                 "attack,release in {0,1e-4,1e-3,0.01,0.2,4}^2 (4 s above 8 kHz only on the quick-tier configurations) x 7 step phases + the fractional fs*t grid; smooth.silence: "
+                 "T{-40,-30,-20,-10} x R{2,5,10,50}/limiter x W{0,3,10} x fs{8k,44.1k,192k} x attack{0,1e-3,0.01} x release{1e-3,0.01,0.05,0.2} x k{1,5,50} x {1,3 calls}; gate.silence: "
+                 "thr{-140,-80,-40,-20,0} x fs x attack{1e-4,1e-3,0.01,0.05} x release{0,1e-3,0.01} x hold{0,1e-4,1e-3,0.05,0.5} x k x calls; gate.step / gate.range: thr{-140,-80,-40,-20,0} x fs x "
+                 "attack,release,hold in {0,1e-4,1e-3,0.01,0.05,0.5}^3 (7 letters of 10^5); gate.bursts: thr{-140,-80,-40,-20,0} x fs x attack{0,1e-4,1e-3,0.01,0.05} x release{1e-3,0.01,0.05,0.2} x "
+                 "hold{1e-4,1e-3,0.01,0.05,0.2} x burst length {1 sample, 0.1, 0.5, 0.9 release times}; streams with frames {one call, 1000, 4097, 65536}; Agc: target{0.001,0.01,0.1,1,10,100} x "
+                 "amplitude -100..+20 dBFS step 5 dB x avg{1,2,10,100,1000,5000} x max_gain{6,20,60,140} (required gains from -70 dB, far below -max_gain, to +120 dB) x 3 letters x "
+                 "(t_rise,t_fall) in {(0.01,0.01),(0.1,0.002)}; gain bound with the same targets and max_gains"),
+    deadline=dict(quick=150, thorough=2400),
     assumptions=COMMON_ASSUME + [
         "ratio is an int in the API; integer ratios are enumerated",
         "'gain in [0,1]' is read to rounding: gain <= 1 + 1e-12 (the dB-domain gain computer of a ratio-1 compressor returns +1 ulp on the pinned tree; "
@@ -44,6 +58,9 @@ PROP = dict(
         "compressor/limiter, linear gain for the gate): the median ratio w over the samples farther than 1e-6 of the step from G must imply "
         "t_est = -ln 9/(fs ln w) within 2 % of the configured time (t = 0: ratio 0); the spread of the ratios is recorded, not judged",
         "10%->90% time is measured in samples on the dB gain (compressor/limiter) or linear gain (gate) and must be fs*t +- (1 sample + 1 %)",
+        "reference recursions (stream, gate.bursts): compressor/limiter gain within 1e-9 dB, gate gain within 1e-12, Agc gain within 1e-9 relative of the long-double recursion; the gate "
+        "reference is only applied to histories in which a hold is never interrupted while the gain is exactly 1 (the library does not restart the hold counter there; not judged); "
+        "the Agc stream steps down by at most 20 dB because the library's recurrent window sum leaves a rounding residue ~eps*n*P_old that is not judged here",
         "NoiseGate hold: the gain is frozen for floor(hold*fs) samples after the level falls below the threshold, measured on a gate whose hold "
         "counter was reset by a preceding opening phase (weaker reading; interrupted holds are not judged)",
         "Agc: 'required gain' = 10 log10(target/input power) dB compared with max_gain - 0.01 dB; settling judged on the mean power of the last 1000 of 20000 samples; "
